@@ -428,3 +428,27 @@ func (a *Adversary) replay(r *rand.Rand, ref *Node, h uint64) {
 	}
 	a.post(&consensus.VoteMessage{Vote: v}, rs.Height, nil, label)
 }
+
+// AdvBlock is the exported name of a fabricated block.
+type AdvBlock = advBlock
+
+// BlockIDOf returns the block id of a fabricated block.
+func BlockIDOf(b *advBlock) types.BlockID { return b.bid }
+
+// SameHeaderOtherCommit returns a block with b's header (hence the same header hash) whose last commit
+// carries the same signatures but an altered round: the last-commit hash covers the signatures only.
+func SameHeaderOtherCommit(b *advBlock) *advBlock {
+	lc := b.block.LastCommit()
+	if lc == nil || len(lc.Signatures) == 0 {
+		return nil
+	}
+	c := lc.Copy()
+	c.Round += 7
+	hd := b.block.Header()
+	blk := types.NewBlock(hd, b.block.Transactions(), c, b.block.Evidence().Evidence, trie.NewStackTrie(nil))
+	if blk.Hash() != b.block.Hash() {
+		return nil
+	}
+	ps := blk.MakePartSet(types.BlockPartSizeBytes)
+	return &advBlock{blk, ps, types.BlockID{Hash: blk.Hash(), PartsHeader: ps.Header()}, false}
+}
